@@ -3192,6 +3192,14 @@ fn normalize_in_place_if_needed(distance: DistanceMetric, embedding: &mut [f32])
             distance
         );
     }
+    if !norm_sq.is_finite() {
+        // Finite components whose squared norm overflows f32 (e.g. [1e30, 1e30]) would be
+        // scaled by 1/inf = 0 into the zero vector.
+        anyhow::bail!(
+            "embedding norm overflows f32; cannot normalize for {:?}",
+            distance
+        );
+    }
     if (NORMALIZATION_NORM_SQ_MIN..=NORMALIZATION_NORM_SQ_MAX).contains(&norm_sq) {
         return Ok(());
     }
